@@ -114,7 +114,10 @@ TraceStep ==
          post == IF ev.exc = "" THEN ToSeq(ev.post) ELSE order    \* a failed call leaves no usable post-state
          S == Leaves
          S2 == Rng(post)
+         big == "big" \in DOMAIN ev /\ ev.big      \* a graded mesh of tens of thousands of leaves: the window clause only
          failed == IF ev.exc # "" THEN {"call-failed"}
+                   ELSE IF big THEN (IF \A e \in S2 : GradeOK(e, ev) THEN {} ELSE {"grade-window"})
+                                    \cup (IF Len(post) = Cardinality(S2) THEN {} ELSE {"duplicate-leaves"})
                    ELSE CommonClauses(ev, S, post) \cup StateClauses(S2, post) \cup OpClauses(ev, S, post)
                         \cup NbrClauses(ev, S2, post) \cup BookClauses(ev)
      IN /\ order' = post
